@@ -18,8 +18,13 @@ import SupervisorModel.Model.Strip
   The real method interleaves them; no information flows from the second into the first
   except `capturemode`, which both track identically (theorem `recordDirect_eq`).
 
-  Not modelled: the copy of child output into supervisord's main log at debug level
-  (`log_to_mainlog`), log rotation (C19), syslog.
+  The copy of child output into supervisord's own log at debug level (`log_to_mainlog`, i.e.
+  `options.loglevel <= DEBG`) is modelled as far as it can disturb the property: the chunk is
+  decoded (`data.decode('utf-8')`, `Sv.Py.utf8Valid`) inside the `try` statements whose handler
+  classes are regenerated as `logDecodeSites`; a UnicodeDecodeError that no handler covers
+  leaves `_log` after the chunk was handed to the child log and before the PROCESS_LOG event
+  (`mainCopy`, error `decode`).  The wording written to the main log is not an observable.
+  Not modelled: log rotation (C19), syslog.
 -/
 namespace Sv.OutDisp
 open Sv.Gen.OutDisp
@@ -66,6 +71,7 @@ structure Cfg where
   errEv : Bool          -- config.stderr_events_enabled
   btok : Bytes          -- event_type.BEGIN_TOKEN
   etok : Bytes          -- event_type.END_TOKEN
+  mainlog : Bool := false   -- log_to_mainlog: options.loglevel <= DEBG when the dispatcher was made
 deriving Repr
 
 /-- the calls `record_output` makes -/
@@ -123,7 +129,9 @@ inductive Out
   | closed                              -- the dispatcher stopped being readable
 deriving DecidableEq, Repr
 
-inductive Err | fuel
+inductive Err
+  | fuel
+  | decode      -- a UnicodeDecodeError left `_log` (and `handle_read_event`)
 deriving DecidableEq, Repr
 
 structure D where
@@ -135,6 +143,17 @@ deriving DecidableEq, Repr
 
 abbrev S := St D Out Err
 
+/-- the debug-level copy of a chunk with the decode sites `sites` (source text, handler classes):
+    every strict decode either succeeds or raises UnicodeDecodeError, which the handlers around
+    it catch or not -/
+def mainCopyWith (sites : List (String × List String)) (c : Cfg) (m : Bool) (d : Bytes) : S → S := guard fun s =>
+  if log_g3 d c.strip false c.mainlog m c.isStdout c.outEv c.errEv then
+    if sites.all (fun site => Py.utf8Valid d || Py.catchesDecodeError site.2) then s else raise .decode s
+  else s
+
+/-- `if self.log_to_mainlog: … data.decode('utf-8') … logger.log(…)` of `_log`, as written in /repo -/
+def mainCopy (c : Cfg) (m : Bool) (d : Bytes) : S → S := mainCopyWith logDecodeSites c m d
+
 /-- `_log(data)` -/
 def logData (c : Cfg) (data : Bytes) : S → S := guard fun s =>
   let m := s.p.mode
@@ -143,10 +162,11 @@ def logData (c : Cfg) (data : Bytes) : S → S := guard fun s =>
              then Strip.stripEscapes data else data
     let toCap := m && toggle_g0 c.capMax m                 -- childlog is the capture logger
     let childlog := if toCap then true else c.hasLog
-    let s1 := if log_g2 d c.strip childlog false m c.isStdout c.outEv c.errEv then
+    let s0 := if log_g2 d c.strip childlog false m c.isStdout c.outEv c.errEv then
                 (if toCap then setP (fun p => { p with cap := boundWrite p.cap d c.capMax }) s
                  else emit (.log d) s)
               else s
+    let s1 := mainCopy c m d s0
     if log_g5 d c.strip childlog false m c.isStdout c.outEv c.errEv then s1    -- capture mode: no PROCESS_LOG
     else if log_g6 d c.strip childlog false m c.isStdout c.outEv c.errEv then
       (if log_g7 d c.strip childlog false m c.isStdout c.outEv c.errEv then emit (.plog true d) s1 else s1)
@@ -306,8 +326,10 @@ def parseCfg (cfg : List String) : Option Cfg := do
   let isStdout ← (if ch = "stdout" then some true else if ch = "stderr" then some false else none)
   let outEv ← kvBool cfg "oev"
   let errEv ← kvBool cfg "eev"
+  -- `mainlog=` (log_to_mainlog) is optional in the case line: absent = not copied
+  let mainlog ← (match kvGet cfg "mainlog" with | none => some false | some _ => kvBool cfg "mainlog")
   if capMax < 0 then none else
-  pure { capMax, hasLog, strip, isStdout, outEv, errEv,
+  pure { capMax, hasLog, strip, isStdout, outEv, errEv, mainlog,
          btok := if isStdout then stdout_BEGIN else stderr_BEGIN,
          etok := if isStdout then stdout_END else stderr_END }
 
@@ -319,6 +341,7 @@ def stepLine (c : Cfg) (s : S) (l : String) : S × String :=
       let s' := readEventDirect c b { s with outs := [] }
       (s', match s'.err with
            | some .fuel => "err fuel"
+           | some .decode => showOuts s'.outs ++ " | raised:UnicodeDecodeError"
            | none => showOuts s'.outs)
     | none => (s, "bad-op")
   | _ => (s, "bad-op")
